@@ -24,7 +24,7 @@ FAM = {
     what="an operator followed by RESHAPE whose shapes are recomputed after the reshape was bypassed (LUT activations, 2x-upscaling resize steps): the OFM takes the reshaped shape while the IFM registers still describe the original tensor, so elements beyond IFM_WIDTH0/HEIGHT0 are fetched through the unused tile bases",
     ctx=dict(requires_layers=["RESHAPE"], max_layers=8),
     sigs={"C02": ["out_of_extent"], "C03": ["uninit_read", "foreign_read", "unwritten_output_consumed", "foreign_tensor_read"], "C04": ["reads_from_divergence", "async_uninit_read", "async_foreign_read", "final_memory_divergence", "inflight_conflict"],
-          "C01": VAL, "C10": VAL}),
+          "C01": VAL, "C10": VAL + ["stripe_partition_gap", "stripe_box_outside_ofm", "stripe_outside_write_region"]}),
  "F04-resize-bilinear-hpc-blockdep": dict(
     what="RESIZE_BILINEAR with half_pixel_centers: the 2x2 depthwise steps read one row/column more than npu_op.ifm.shape (edge replication through the tile bases); calc_blockdep clips its first-job IFM volume to ifm.shape, misses the overlap with the producer's last OFM block and programs BLOCKDEP too large",
     ctx=dict(requires_layers=["RESIZE_BILINEAR"], max_layers=8, kind_any=["DEPTHWISE"]),
@@ -33,10 +33,6 @@ FAM = {
     what="calc_blockdep treats REDUCE_SUM as if its IFM depth were traversed in ofm-depth (=1) slices and counts non-existent producer blocks (negative block index) as outstanding jobs: after a single-block producer it programs BLOCKDEP=3 although the second REDUCE_SUM block reads the producer's output (softmax lowering: per-row elementwise ops followed by REDUCE_SUM over all rows)",
     ctx=dict(requires_any=["SOFTMAX"], max_layers=8, kind_any=["POOL/REDUCE_SUM"]),
     sigs={"C04": ["async_uninit_read", "reads_from_divergence"]}),
- "F06-slice-offset-scaled-by-stride": dict(
-    what="a strided (stride>1) or padded pool/conv that reads through a fused slice offset: Box.transform_with_strides_and_skirt adds the read offset before multiplying by the stride (high_level_command_stream.py:66-101); the IFM box handed to the register generator is wrong (even zero-sized), addresses and BLOCKDEP derived from it are wrong",
-    ctx=dict(requires_any=SLICES, max_layers=8, kind_any=["POOL/MAX", "POOL/AVERAGE", "CONV", "DEPTHWISE", None]),
-    sigs={"C02": ["out_of_extent"], "C03": ["uninit_read", "foreign_read", "foreign_tensor_read"], "C04": ["reads_from_divergence", "async_uninit_read", "async_foreign_read"], "C01": VAL, "C10": VAL}),
  "F15-second-clamp-replaces-first": dict(
     what="two consecutive clamps (an operator with a fused ReLU-family activation followed by a standalone RELU / RELU6 / RELU_N1_TO_1, or two standalone ones): the later clamp is fused into the producer and replaces the earlier one instead of being intersected with it",
     ctx=dict(min_count=dict(of=["RELU", "RELU6", "RELU_N1_TO_1", "FUSED_RELU", "FUSED_RELU6", "FUSED_RELU_N1_TO_1"], n=2), max_layers=10),
@@ -84,17 +80,13 @@ FIXED = [
  "fixed: property=C01 ab37afd a slice of a slice (STRIDED_SLICE ; STRIDED_SLICE ; any NPU consumer, or SPLIT output sliced again) lost one of the two read offsets/shapes: move_splitsliceread_to_consumer overwrote the consumer's own read offset, so the consumer read the wrong window and depth (conv weights encoded for 6 input channels while IFM_DEPTH said 28) (findings/FX-slice-of-slice.C01.json)",
  "fixed: property=C01 8235dbe CONV_2D with stride 2 and dilation 2 as first operator of a network (IFM depth * stride <= 8): fixup_strided_conv folded IFM/filter columns into the depth but kept the dilation, sampling the wrong columns (findings/FX-strided-conv-dilation.C01.json)",
  "fixed: property=C01 130e17a HARD_SWISH lookup table wrong by far more than one step for inputs in the upper half of the range: shift_left16/32 wrapped in int16/int32 before the saturation test under NumPy 2 (findings/FX-hard-swish-saturating-shift.C01.json)",
+ "fixed: property=C10 9ba163c <operator> ; STRIDED_SLICE ; RELU-family: the activation (carrying the fused slice read) was packed into the producer's pass, which then wrote only the sliced OFM shape from its own origin - the recorded stripes did not cover the operator's output and the values were those of the wrong window (findings/FX-relu-after-slice-packed.C10.json)",
+ "fixed: property=C10 741f1fd (was known finding F06) a strided (stride>1) or padded convolution / pooling reading through a fused SPLIT/SLICE: transform_with_strides_and_skirt multiplied the read offset by the stride and padded against the whole tensor; wrong IFM window, reads outside the extent, undefined bytes, and AssertionError in Box.__init__ / address_for_coordinate (findings/F06-slice-offset-scaled-by-stride.*.json replay it on the parent commit)",
+ "fixed: property=C01 36dfbd4 STRIDED_SLICE ; FULLY_CONNECTED: the slice read was moved onto an operator that reads its input flattened, wrong elements were read (findings/FX-slice-then-fully-connected.C01.json)",
+ "fixed: property=C10 4c34a7c STRIDED_SLICE/SPLIT along H ; TRANSPOSE_CONV (or nearest resize): the upscaling factor of the stripe was OFM height // height of the whole IFM tensor (0 for a short slice), giving an empty IFM box and wrong values (findings/FX-sliced-transpose-conv-upscaling.C10.json)",
  "fixed: property=C12 3e245fc elementwise operator executed in place over an NPU-subgraph input (produced by a CPU operator) that a later subgraph still reads: CONV_2D(stride 4, CPU) -> MINIMUM(NPU) -> CUSTOM(CPU) ; RELU of the conv output in a second NPU subgraph (findings/F05-inplace-elementwise-shared-input.C12.json)",
 ]
 EXTRA = [
- dict(id="F06-slice-offset-scaled-by-stride", property="C13", status="known",
-      signature={"oracle": "internal_exception", "exc_type": "AssertionError", "site": "high_level_command_stream.py:__init__"}, requires_any=SLICES,
-      what="same root cause as F06: the mis-scaled slice offset makes the IFM box end before it starts and Box.__init__ asserts (compilation dies with AssertionError)",
-      example="findings/F06-slice-offset-scaled-by-stride.C13.json"),
- dict(id="F06-slice-offset-scaled-by-stride", property="C13", status="known",
-      signature={"oracle": "internal_exception", "exc_type": "AssertionError", "site": "tensor.py:address_for_coordinate"}, requires_any=SLICES,
-      what="same root cause as F06: the mis-scaled slice offset produces a coordinate outside the tensor and address_for_coordinate asserts",
-      example="findings/F06-slice-offset-scaled-by-stride.C13b.json"),
  dict(id="F07-pad-then-mean", property="C13", status="known",
       signature={"oracle": "internal_exception", "exc_type": "AssertionError", "site": "tensor.py:address_for_coordinate"}, requires_layers=["PAD", "MEAN"],
       what="PAD followed by MEAN over H and W: the explicit padding is fused into the depthwise/pool operator MEAN is lowered to, whose IFM box is then computed for the padded extent and address_for_coordinate asserts",
